@@ -101,7 +101,12 @@ exec_c20(const vcase *vc)
 				const char *on = vc->ops[i + 2].name;
 				bool        data = !strcmp(on, "send") || !strcmp(on, "recv") || !strcmp(on, "ctxsend") || !strcmp(on, "ctxrecv") || !strcmp(on, "wait") || !strcmp(on, "dial") ||
 				    !strcmp(on, "pipeclose") || !strcmp(on, "http"); // (http: the in-process server may be the one that ran out of memory and dropped the connection)
-				if (M.rcs[i] != NNG_ENOMEM && !(data && loss_code(M.rcs[i])))
+				// (round 7, ws://: when the listener side of an in-process WebSocket handshake runs out of memory it answers the upgrade with an
+				//  HTTP error status, which the dialing side reports as NNG_EPROTO - the loss of that one connection as the peer sees it)
+				bool peer_refused = !strcmp(on, "dial") && M.rcs[i] == NNG_EPROTO;
+				if (peer_refused)
+					vr_tag("dial_refused_by_faulted_listener");
+				if (M.rcs[i] != NNG_ENOMEM && !(data && loss_code(M.rcs[i])) && !peer_refused)
 					vr_fail("C20:unclean-error", "allocation %ld of %ld failed: op %d (%s) returned %d (%s) instead of %d; expected NNG_ENOMEM%s", k, total, (int) i + 2, on, M.rcs[i],
 					    nng_strerror((nng_err) M.rcs[i]), base[i], data ? " or the loss of one message / connection" : "");
 				if (M.rcs[i] == NNG_ENOMEM)
@@ -133,7 +138,7 @@ gen_c20()
 }
 
 // the finite sub-space that is enumerated: the bare scenario templates (no insertions, blocking send / receive forms) over
-// inproc / ipc / tcp, EVERY allocation index of each, the indices striped over the workers
+// inproc / ipc / tcp / ws, EVERY allocation index of each, the indices striped over the workers
 std::vector<std::string>
 enum_c20(int worker, int nworkers, bool thorough)
 {
@@ -143,7 +148,7 @@ enum_c20(int worker, int nworkers, bool thorough)
 	    "cancel 0 0", "send 0 1 5000 0", "recv 1 1 0 0", "sleep 5", "open 3 0", "subscribe 0 1 0"};
 	int nins = thorough ? (int) (sizeof kIns / sizeof kIns[0]) : 1;
 	for (int t = 0; t < api::kNTemplates; t++)
-		for (int T = 0; T < 3; T++)
+		for (int T = 0; T < 4; T++)
 			for (int S = 0; S < 3; S++)
 				for (int F = 0; F < 2; F++) {
 					std::string              tp = api::kTemplates[t], w;
@@ -172,7 +177,7 @@ enum_c20(int worker, int nworkers, bool thorough)
 							if (ins && (S || F))
 								continue; // insertions: blocking forms, plain dial only
 							std::ostringstream o;
-							o << "cfg " << (1000 + t * 3 + T) << " 0 10 0 400 0\nfault 3 " << nworkers << " " << worker << "\n# template " << t << "\n";
+							o << "cfg " << (1000 + t * 4 + T) << " 0 10 0 400 0\nfault 3 " << nworkers << " " << worker << "\n# template " << t << "\n";
 							for (size_t i = 0; i <= lines.size(); i++) {
 								if (ins && i == pos)
 									o << kIns[ins] << "\n";
@@ -196,7 +201,7 @@ main(int argc, char **argv)
 	sp.gen        = gen_c20;
 	sp.exec       = exec_c20;
 	sp.watchdog_s = 120;
-	sp.rule = "the API programs of C03 (15 protocol scenarios over inproc / ipc / tcp with operations inserted anywhere, statistics snapshots, contexts, devices, "
+	sp.rule = "the API programs of C03 (15 protocol scenarios over inproc / ipc / tcp / ws with operations inserted anywhere, statistics snapshots, contexts, devices, "
 	          "11-socket worlds) are run once fault-free (A allocations, return codes recorded), then with the k-th allocation failing for 6 (quick) or 40 "
 	          "(thorough) values of k spread over [1, A] or taken as a contiguous window, nng_init's own allocations included. Oracle: no crash / sanitizer "
 	          "report / deadlock / livelock / watchdog; the first return code differing from the fault-free run is NNG_ENOMEM, or a loss-type code on a "
